@@ -1723,6 +1723,20 @@ hdf_read_vars(XDR *xdrs, NC *handle, int32 vg)
                     }
                 }
 
+                /* Unnamed dimensions are numbered again when the file is written
+                   (hdf_write_dim: "fakeDim<count of dimensions written>"), their
+                   coordinate variables keep the name they were created with.  The
+                   variable is found by the name of its dimension, so it takes that
+                   name here: otherwise the attributes and the scale of an unnamed
+                   dimension behind a shared one are lost when the file is read. */
+                if (var_type == IS_CRDVAR && ndims == 1 && strncmp(vgname, "fakeDim", 7) == 0 &&
+                    handle->dims != NULL && dims[0] >= 0 && (unsigned)dims[0] < handle->dims->count) {
+                    NC_dim *cdim = ((NC_dim **)handle->dims->values)[dims[0]];
+
+                    if (strncmp(cdim->name->values, "fakeDim", 7) == 0 && cdim->name->len < sizeof(vgname))
+                        strcpy(vgname, cdim->name->values);
+                }
+
                 variables[count] = NC_new_var(vgname, type, ndims, dims);
                 /* BMR: put back hdf type that was set wrong by
                 NC_new_var; please refer to the cvs history of
